@@ -155,6 +155,7 @@ def sync_body(token):
 
 
 PROP_TAGS = {
+    "resourcetype": "{DAV:}resourcetype",
     # abstract property -> (xml qualified tag, namespace decl)
     "displayname": "{DAV:}displayname",
     "caldesc": "{urn:ietf:params:xml:ns:caldav}calendar-description",
@@ -182,7 +183,15 @@ def proppatch_body(ops, root="{DAV:}propertyupdate", cdata=False):
         return _escape(v)
     rns, rlocal = _qname(root)
     parts = ['<?xml version="1.0" encoding="utf-8"?><R:%s xmlns:R="%s" xmlns:D="DAV:">' % (rlocal, rns)]
+    RT = {"collection": "<D:collection/>", "calendar": '<C:calendar xmlns:C="urn:ietf:params:xml:ns:caldav"/>',
+          "addressbook": '<A:addressbook xmlns:A="urn:ietf:params:xml:ns:carddav"/>',
+          "junk": '<X:shared xmlns:X="http://example.com/ns/sharing"/>'}
     for p, v in ops:
+        if p == "resourcetype":
+            # v: comma separated element names, e.g. "collection,addressbook,junk"
+            parts.append('<D:set><D:prop><D:resourcetype>%s</D:resourcetype></D:prop></D:set>'
+                         % "".join(RT[x] for x in v.split(",") if x))
+            continue
         ns, local = _qname(PROP_TAGS.get(p, p))
         if v is None:
             parts.append('<D:remove><D:prop><P:%s xmlns:P="%s"/></D:prop></D:remove>' % (local, ns))
